@@ -46,6 +46,17 @@ Lemma flux_boundary_planar rho m :
   flux_boundary_integrand rho m 2 = ev rho (div_at m 2) * Rabs (ev rho jac_det).
 Proof. unfold flux_boundary_integrand. rewrite planar_surface_element. reflexivity. Qed.
 
+(* A 3-component field on a planar surface (outside the property, which speaks of planar fields): the code takes the
+   full 3-D divergence of the field at z = 0, i.e. the planar integrand plus (dF3/dz)(S) |det|.  The flux across the
+   boundary curve only involves F1, F2 (green_pointwise, m = 3), so for such a field the two library paths agree
+   exactly when dF3/dz vanishes on the plane. *)
+Lemma flux_boundary_three_components rho :
+  flux_boundary_integrand rho 3 2 =
+  flux_boundary_integrand rho 2 2 + vk rho 3 0 0 1 * Rabs (ev rho jac_det).
+Proof.
+  rewrite !flux_boundary_planar. forms_cbn. ring.
+Qed.
+
 (* the normalisation in flux_across_curve cancels: (F . n/|n|) * |T| = F . n  because |T x k| = |T| for planar T *)
 Lemma flux_curve_normalisation (f1 f2 tx' ty' : R) : 0 < tx' * tx' + ty' * ty' ->
   (f1 * (ty' / sqrt (ty' * ty' + tx' * tx')) + f2 * (- tx' / sqrt (ty' * ty' + tx' * tx'))) * sqrt (tx' * tx' + ty' * ty')
